@@ -18,6 +18,9 @@ func Copy(src, dest string) error {
 
 // CopyDirectory copy a directory and sub-direcotories and files on local files system.
 func CopyDirectory(src, dest string) error {
+	// the walk reports children as cleaned paths: map them with a cleaned
+	// source (a trailing slash would eat the separator of the sub path)
+	src = filepath.Clean(src)
 	// a destination inside the source is not a part of the copied tree
 	// (without it the walk follows its own output until the path is too long)
 	skip := filepath.Clean(dest)
